@@ -30,7 +30,7 @@ CONSTANTS Types,      \* event types the source declares
           TypeSeq,    \* the same, as a sequence (autoBind order is irrelevant across types)
           Owners,     \* objects whose bound methods are the handlers
           SubOpts,    \* allowed [prio, once, weak, byName] option records
-          AutoOpts,   \* allowed [prio, weak] options of autoBindEvents ({} = off)
+          AutoOpts,   \* allowed [prio, weak, prefix] options of autoBindEvents ({} = off)
           RVs,        \* handler return values
           UnsubModes, \* "handler" | "handlerT" | "eid" | "eidT" | "pair"
           BulkModes,  \* item forms of removeListeners(list): subset of {"handler", "eid", "pair"}
@@ -148,13 +148,17 @@ Subscribe(t, o, opt) ==
              /\ Log("Subscribe", args,
                     [O0 EXCEPT !.k = "sub", !.id = r.id, !.n = Len(subs) + 1])
 
-\* autoBindEvents(sink = owner, source): one subscription per declared type
-\* for which the owner has a _handle_<type> method (it has one for every
-\* declared type and one for the undeclared type, which must be ignored)
+\* autoBindEvents(sink = owner, source, prefix): one subscription per declared
+\* type for which the owner has a _handle_<type> method (prefix ""), resp. a
+\* _handle_<prefix>_<type> method.  The owner has both kinds for every
+\* declared type and for the undeclared type (which must be ignored); a plain
+\* autoBind must not bind the prefixed methods and vice versa.
+\*   m = the type name (plain) or "o" \o type name (prefix "other")
+AutoMethod(t, prefix) == IF prefix = "" THEN t ELSE "o" \o t
 AutoBind(o, opt) ==
   LET k == Len(TypeSeq)
       new == [i \in 1..k |-> [id |-> cnt.sub + i, t |-> TypeSeq[i], o |-> o,
-                              m |-> TypeSeq[i], prio |-> opt.prio,
+                              m |-> AutoMethod(TypeSeq[i], opt.prefix), prio |-> opt.prio,
                               once |-> FALSE, weak |-> opt.weak]] IN
   /\ OpsOK /\ o \notin dead /\ cnt.sub + k <= MaxSubs
   /\ subs' = subs \o new
@@ -162,7 +166,7 @@ AutoBind(o, opt) ==
                      [stack[i] EXCEPT !.late = @ \cup {r \in Range(new) : r.t = stack[i].t}]])
   /\ cnt' = [cnt EXCEPT !.sub = @ + k]
   /\ UNCHANGED <<dead, freed>>
-  /\ Log("AutoBind", [o |-> o, prio |-> opt.prio, weak |-> opt.weak],
+  /\ Log("AutoBind", [o |-> o, prio |-> opt.prio, weak |-> opt.weak, prefix |-> opt.prefix],
          [O0 EXCEPT !.k = "auto", !.id = cnt.sub + 1, !.n = Len(subs) + k])
 
 \* removeListener in its five calling conventions
@@ -334,7 +338,7 @@ RaiseSimple(t, form) ==
                             !.seq = [i \in DOMAIN due |-> [o |-> due[i].o, m |-> due[i].m]]])
 
 Handlers == {<<o, "h">> : o \in Owners} \cup
-            (IF AutoOpts = {} THEN {} ELSE {<<o, t>> : o \in Owners, t \in Types})
+            {<<o, AutoMethod(t, opt.prefix)>> : o \in Owners, t \in Types, opt \in AutoOpts}
 
 \* the elements a removeListeners list is made of (bounded exploration only)
 Item(mode, o, m, t, id) == [mode |-> mode, o |-> o, m |-> m, t |-> t, id |-> id]
